@@ -12,42 +12,47 @@ bind, session, message/presence/iq with any from/to, stream close) plus `deliver
 its i-th outstanding reply" — in any order, including stanzas before authentication and elements sent while
 a checker reply is still outstanding.  No hypothesis on the script.
 
-What is proved, exactly:
-* `auth_only_if_checker_approved` — a non-empty jid is "u@domain cut at its first '/'", optionally followed by
-  "/resource", for a user name `u` whose credential the checker approved.  NOT proved, and false today
-  (`C16_defect_username_with_slash`): that this is literally `u@domain[/resource]`; it is when no approved name
-  contains '/' (`*_literal_partial`).  The server does not reject names containing '/' or '@'
-  (finding C16:username-with-slash, fixes/C16-username-chars.diff).  A PLAIN authorization identity is ignored.
-* `needs_auth_only_authenticated` (+ `routes_`/`bind_only_authenticated`) — unconditional.
-* `from_is_authenticated_jid`, `cannot_spoof`, `replies_addressed_to_sender`, `cannot_spoof_approved` — for EVERY
-  server state and every interleaving of any number of connections: the `from` of a routed/delivered stanza is
-  the sending connection's own server-side jid or its `jidToBareJid`; comparison is exact (another case, another
-  resource, another connection of the same user: dropped).
-* `Out.ub` marks the places where the C++ has undefined behaviour: a SASL2 success with an unset
-  `sasl2AuthRequest` (finding C16:sasl2-request-unset), and a write through a routing-table entry that outlived its
-  connection (finding C16:stale-routing-entry; both crash the real server).  Nothing is claimed about the real
-  process after such a point.
-* Out of scope: server-to-server (`QXmppIncomingServer`/`QXmppOutgoingServer`, dialback) — the modelled server
-  has no S2S listener, stanzas for other domains are not routed; server extensions; TLS.
+What is proved, exactly (no hypothesis on the scripts; `'/' ∉ cfg.domain` is the only configuration assumption, and
+only for the literal forms):
+* `auth_only_if_checker_approved` — a non-empty jid belongs to a user name `u` that is well-formed (non-empty, no '/',
+  no '@': the server's own guard, repo commit f6325af) and whose credential the checker approved;
+  `auth_only_if_checker_approved_literal`: it is literally `u@domain` or `u@domain/resource`.
+  `auth_only_if_getPassword_approves`: the same against what `getPassword` approves, for `getPassword`-only checkers.
+  A PLAIN / DIGEST-MD5 authorization identity is ignored.
+* `needs_auth_only_authenticated` (+ `routes_`/`bind_only_authenticated`): nothing is bound, routed or answered before
+  an authentication record of that connection.
+* `from_is_authenticated_jid`, `cannot_spoof`, `replies_addressed_to_sender` (every server state), `cannot_spoof_approved`,
+  `cannot_spoof_literal` (every script): the `from` of a routed/delivered stanza is the sending connection's own jid or
+  its bare form, literally `u@domain[/resource]` of its approved user — for every interleaving of any number of
+  connections; comparison is exact (another case, another resource, another connection of the same user: dropped).
+* `tables_reference_open_connections`, `never_routes_to_closed_connection`: in every reachable state the routing
+  tables reference open connections only (repo commit c3084c3), so no write ever goes to a connection that is gone.
+* `Out.ub` remains in the model where `onSasl2Authenticated()` would read an unset `sasl2AuthRequest`; since repo commit
+  b1ba6cb no explored script reaches it (not proved unreachable).
+* Out of scope: server-to-server (`QXmppIncomingServer`/`QXmppOutgoingServer`, dialback) — the modelled server has no
+  S2S listener, stanzas for other domains are not routed; server extensions; TLS; stringprep / case folding of JIDs.
 
-History: the four findings of the first round (pre-authentication stanza routed / bind / session answered;
-checker reply applied to a later SASL exchange) were fixed by repo commits 73b9a89 and e590a14; their witnesses
-are the first scripts of the harness corpus.
+History: seven findings were fixed in the repo — 73b9a89 (pre-authentication stanza / bind / session), e590a14 (checker
+reply applied to a later SASL exchange), f6325af (user names with '/' or '@'), c3084c3 (routing entries outliving their
+connection: crash), b1ba6cb (SASL2 success with an unset request: crash).  Their witnesses are the first scripts of the
+harness corpus, the two crashes are also re-run in a child process.
 -/
 namespace Qx.C16
 
 /-! ## 1. who a connection is accepted as -/
 
 /-- **auth_only_if_checker_approved.**  For every checker, script and connection `c`: if the server-side jid of
-`c` is non-empty then it is `u@domain` or `u@domain/resource` for a user `u` for which `c` itself has sent a
-credential that the checker approves (`check u p = ok` for a PLAIN pair, resp. a DIGEST-MD5 response computed
-from exactly `digestOf u`).  ANONYMOUS never sets a jid (same statement: no credential, no jid). -/
+`c` is non-empty then it is derived (`JidOf`: `u@domain`, or that followed by "/resource") from a user name `u` that is
+well-formed and for which `c` itself has sent a credential that the checker approves (`check u p = ok` for a PLAIN
+pair, resp. a DIGEST-MD5 response computed from exactly `digestOf u`).  ANONYMOUS never sets a jid. -/
 theorem auth_only_if_checker_approved (cfg : Cfg) (ops : List (Nat × Ev)) (c : Nat) :
     ((run cfg init ops).1.conns c).jid ≠ [] →
-      ∃ u, Approved cfg ops c u ∧ JidOf cfg u ((run cfg init ops).1.conns c).jid := by
+      ∃ u, Approved cfg ops c u ∧ ¬ badName u ∧ JidOf cfg u ((run cfg init ops).1.conns c).jid := by
   have h := servInv_run cfg ops [] init (servInv_init cfg)
   simp only [List.nil_append] at h
-  exact (h c).jid_ok
+  intro hj
+  obtain ⟨u, ⟨hu, hgood⟩, hjid⟩ := (h c).jid_ok hj
+  exact ⟨u, hu, hgood, hjid⟩
 
 /-- **auth_only_if_checker_approved, for a checker written the documented way** (only `getPassword()`; the
 library's default `checkPassword()` / `getDigest()` do the rest): a non-empty jid is `u@domain[/resource]` for a
@@ -57,11 +62,11 @@ reports an error (unknown, rejected, temporarily failing) is never accepted — 
 theorem auth_only_if_getPassword_approves (domain : List Char) (gp : List Char → PwRes)
     (md5 : List Char → List Char → List Char) (ops : List (Nat × Ev)) (c : Nat) :
     ((run (Cfg.ofGetPassword domain gp md5) init ops).1.conns c).jid ≠ [] →
-      ∃ u, (∃ ev, (c, ev) ∈ ops ∧ GpApproves gp md5 ev u) ∧
+      ∃ u, (∃ ev, (c, ev) ∈ ops ∧ GpApproves gp md5 ev u) ∧ ¬ badName u ∧
         JidOf (Cfg.ofGetPassword domain gp md5) u ((run (Cfg.ofGetPassword domain gp md5) init ops).1.conns c).jid := by
   intro hj
-  obtain ⟨u, ⟨ev, hm, ha⟩, hjid⟩ := auth_only_if_checker_approved (Cfg.ofGetPassword domain gp md5) ops c hj
-  exact ⟨u, ⟨ev, hm, gpApproves_of_approves domain gp md5 ev u ha⟩, hjid⟩
+  obtain ⟨u, ⟨ev, hm, ha⟩, hgood, hjid⟩ := auth_only_if_checker_approved (Cfg.ofGetPassword domain gp md5) ops c hj
+  exact ⟨u, ⟨ev, hm, gpApproves_of_approves domain gp md5 ev u ha⟩, hgood, hjid⟩
 
 /-- the resource part never eats into the user: when neither the approved user name nor the domain contains
 '/', "u@domain cut at its first '/'" is just `u@domain` -/
@@ -75,17 +80,14 @@ theorem jidOf_plain (cfg : Cfg) (u j : List Char) (h : JidOf cfg u j) (hu : '/' 
 def CleanJid (cfg : Cfg) (u j : List Char) : Prop :=
   j = mkBare u cfg.domain ∨ ∃ r, j = mkBare u cfg.domain ++ '/' :: r
 
-/-- **auth_only_if_checker_approved, literal form (partial).**  FULL STATEMENT (false today, see
-`C16_defect_username_with_slash`): the jid is literally `u@domain` or `u@domain/resource` for an approved `u`.
-PROVED HERE under the hypothesis that no name the checker approves for this connection (nor the domain) contains
-'/': the server itself does not reject such names (fixes/C16-username-chars.diff makes it do so). -/
-theorem auth_only_if_checker_approved_literal_partial (cfg : Cfg) (ops : List (Nat × Ev)) (c : Nat)
-    (hname : ∀ u, Approved cfg ops c u → '/' ∉ mkBare u cfg.domain) :
+/-- **auth_only_if_checker_approved, literal form.**  The jid is literally `u@domain` or `u@domain/resource` for a
+well-formed, approved `u` (the configured domain is assumed to contain no '/'). -/
+theorem auth_only_if_checker_approved_literal (cfg : Cfg) (hdom : '/' ∉ cfg.domain) (ops : List (Nat × Ev)) (c : Nat) :
     ((run cfg init ops).1.conns c).jid ≠ [] →
-      ∃ u, Approved cfg ops c u ∧ CleanJid cfg u ((run cfg init ops).1.conns c).jid := by
+      ∃ u, Approved cfg ops c u ∧ ¬ badName u ∧ CleanJid cfg u ((run cfg init ops).1.conns c).jid := by
   intro hj
-  obtain ⟨u, hu, hjid⟩ := auth_only_if_checker_approved cfg ops c hj
-  exact ⟨u, hu, jidOf_plain cfg u _ hjid (hname u hu)⟩
+  obtain ⟨u, hu, hgood, hjid⟩ := auth_only_if_checker_approved cfg ops c hj
+  exact ⟨u, hu, hgood, jidOf_plain cfg u _ hjid (not_slash_mkBare u cfg.domain hgood hdom)⟩
 
 /-! ## 2. nothing is bound, routed or answered before authentication -/
 
@@ -162,82 +164,61 @@ theorem cannot_spoof_approved (cfg : Cfg) (ops : List (Nat × Ev)) (op : Nat × 
     rw [h2] at hco
     rw [h1]
     exact connStep_emit_jid_ne cfg _ _ _ st hco
-  obtain ⟨u, hu, hj⟩ := auth_only_if_checker_approved cfg ops src hne
+  obtain ⟨u, hu, _, hj⟩ := auth_only_if_checker_approved cfg ops src hne
   exact ⟨u, hu, hj, hfrom⟩
 
-/-- **cannot_spoof, literal form (partial).**  FULL STATEMENT (false today, `C16_defect_slash_name_spoofs`): the
-`from` of a delivered stanza is literally `u@domain` or `u@domain/resource` for a user `u` approved for the
-sending connection.  PROVED HERE under the same hypothesis: no approved name (nor the domain) contains '/'. -/
-theorem cannot_spoof_literal_partial (cfg : Cfg) (ops : List (Nat × Ev)) (op : Nat × Ev)
-    (src dst : Nat) (st : Stanza) (h : Out.deliver src dst st ∈ (step cfg (run cfg init ops).1 op).2)
-    (hname : ∀ u, Approved cfg ops src u → '/' ∉ mkBare u cfg.domain) :
+/-- **cannot_spoof, literal form.**  The `from` of every stanza delivered on behalf of `src`, after any script, is
+literally `u@domain` or `u@domain/resource` for a well-formed user `u` whose credential, sent by `src` itself, the
+checker approved (the configured domain is assumed to contain no '/'). -/
+theorem cannot_spoof_literal (cfg : Cfg) (hdom : '/' ∉ cfg.domain) (ops : List (Nat × Ev)) (op : Nat × Ev)
+    (src dst : Nat) (st : Stanza) (h : Out.deliver src dst st ∈ (step cfg (run cfg init ops).1 op).2) :
     ∃ u, Approved cfg ops src u ∧ CleanJid cfg u st.sender := by
-  obtain ⟨u, hu, hjid, hfrom⟩ := cannot_spoof_approved cfg ops op src dst st h
-  have hn := hname u hu
-  have hclean := jidOf_plain cfg u _ hjid hn
+  obtain ⟨u0, _, _, hfrom⟩ := cannot_spoof_approved cfg ops op src dst st h
+  have hne : ((run cfg init ops).1.conns src).jid ≠ [] := by
+    intro he
+    rcases hfrom with hf | hf
+    · have h' := h
+      unfold step at h'
+      obtain ⟨co, hco, s', hs'⟩ := applyOuts_mem cfg op.1 _ _ _ h'
+      obtain ⟨h1, h2⟩ := (applyOut_stanza_origin cfg s' op.1 co _ hs').2.1 _ _ _ rfl
+      rw [h2] at hco
+      exact connStep_emit_jid_ne cfg _ _ _ st hco (by rw [← h1]; exact he)
+    · have h' := h
+      unfold step at h'
+      obtain ⟨co, hco, s', hs'⟩ := applyOuts_mem cfg op.1 _ _ _ h'
+      obtain ⟨h1, h2⟩ := (applyOut_stanza_origin cfg s' op.1 co _ hs').2.1 _ _ _ rfl
+      rw [h2] at hco
+      exact connStep_emit_jid_ne cfg _ _ _ st hco (by rw [← h1]; exact he)
+  obtain ⟨u, hu, hgood, hclean⟩ := auth_only_if_checker_approved_literal cfg hdom ops src hne
+  have hn := not_slash_mkBare u cfg.domain hgood hdom
+  have hfrom' := cannot_spoof cfg _ op src dst st h
   refine ⟨u, hu, ?_⟩
-  rcases hfrom with hf | hf
+  rcases hfrom' with hf | hf
   · rw [hf]; exact hclean
   · rw [hf]
     rcases hclean with hc | ⟨r, hc⟩
     · rw [hc, bareOf_eq_self _ hn]; exact Or.inl rfl
     · left
       rw [hc]
-      have : bareOf (mkBare u cfg.domain ++ '/' :: r) = bareOf (mkBare u cfg.domain) := by
-        have h1 := bareOf_withRes (mkBare u cfg.domain) r
-        rw [withRes, bareOf_eq_self _ hn] at h1
-        rw [h1, bareOf_eq_self _ hn]
-      rw [this, bareOf_eq_self _ hn]
+      have h1 := bareOf_withRes (mkBare u cfg.domain) r
+      rw [withRes, bareOf_eq_self _ hn] at h1
+      rw [h1]
 
-/-! ## 4. what today's code does instead (defects, with witnesses) -/
+/-! ## 4. the routing tables -/
 
-/-- a checker with the account "v"/"p" and — as a registration-open or pass-through checker would allow — an
-account literally named "v@d/x" (password "q") -/
-def slashCfg : Cfg :=
-  { domain := ['d']
-    check := fun u p =>
-      if (u = ['v'] ∧ p = ['p']) ∨ (u = ['v', '@', 'd', '/', 'x'] ∧ p = ['q']) then .ok else .bad
-    digestOf := fun _ => .nouser }
+/-- **tables_reference_open_connections**: after any script, every entry of the two routing tables points to a
+connection that is still open — whatever sequence of binds, rebinds, re-logins, conflicts and disconnects of any
+number of connections produced it. -/
+theorem tables_reference_open_connections (cfg : Cfg) (ops : List (Nat × Ev)) : TablesOpen (run cfg init ops).1 :=
+  tablesOpen_run cfg ops init tablesOpen_init
 
-/-- **Defect (C16:username-with-slash).**  The literal form of `auth_only_if_checker_approved` is false for
-today's code: a connection approved as the user "v@d/x" gets the jid "v@d/x@d"; `jidToBareJid` cuts it at the
-first '/', so after a bind it is `v@d/r` — an address of the user "v", for whom nothing was approved. -/
-theorem C16_defect_username_with_slash :
-    ¬ (∀ (cfg : Cfg) (ops : List (Nat × Ev)) (c : Nat), ((run cfg init ops).1.conns c).jid ≠ [] →
-        ∃ u, Approved cfg ops c u ∧ CleanJid cfg u ((run cfg init ops).1.conns c).jid) := by
-  intro h
-  have hjid : ((run slashCfg init [(1, .openStream ['d']),
-      (1, .auth false ['P', 'L', 'A', 'I', 'N'] (.creds ['v', '@', 'd', '/', 'x'] ['q']) false), (1, .deliver 0),
-      (1, .bind ['r'])]).1.conns 1).jid = ['v', '@', 'd', '/', 'r'] := by decide
-  obtain ⟨u, ⟨ev, hm, ha⟩, hj⟩ := h slashCfg [(1, .openStream ['d']),
-      (1, .auth false ['P', 'L', 'A', 'I', 'N'] (.creds ['v', '@', 'd', '/', 'x'] ['q']) false), (1, .deliver 0),
-      (1, .bind ['r'])] 1 (by rw [hjid]; decide)
-  rw [hjid] at hj
-  simp only [List.mem_cons, List.not_mem_nil, or_false, Prod.mk.injEq, true_and] at hm
-  have hu : u = ['v', '@', 'd', '/', 'x'] := by
-    rcases hm with rfl | rfl | rfl | rfl
-    · simp [Approves, Ev.payload] at ha
-    · simp only [Approves, Ev.payload] at ha
-      exact ha.1.symm
-    · simp [Approves, Ev.payload] at ha
-    · simp [Approves, Ev.payload] at ha
-  subst hu
-  rcases hj with hj | ⟨r, hj⟩
-  · exact absurd hj (by decide)
-  · simp [mkBare, slashCfg] at hj
-
-/-- …and it speaks for "v": with the real "v" logged in (connection 0), the connection approved as "v@d/x" sends
-a message with `from='v@d'` (accepted: it is the "bare" form of its jid) which is delivered to v's own client —
-and would be delivered to anybody else — as coming from `v@d`. -/
-theorem C16_defect_slash_name_spoofs :
-    Out.deliver 1 0 { kind := .message, sender := ['v', '@', 'd'], to := ['v', '@', 'd', '/', 'h'] } ∈
-      (run slashCfg init
-        [(0, .openStream ['d']), (0, .auth false ['P', 'L', 'A', 'I', 'N'] (.creds ['v'] ['p']) false), (0, .deliver 0),
-         (0, .bind ['h']),
-         (1, .openStream ['d']), (1, .auth false ['P', 'L', 'A', 'I', 'N'] (.creds ['v', '@', 'd', '/', 'x'] ['q']) false),
-         (1, .deliver 0),
-         (1, .stanza { kind := .message, sender := ['v', '@', 'd'], to := ['v', '@', 'd', '/', 'h'] })]).2 := by
-  decide
+/-- **never_routes_to_closed_connection**: whoever `routeData` finds for any address, in any reachable state, is an
+open connection: the server never writes to a connection that is gone. -/
+theorem never_routes_to_closed_connection (cfg : Cfg) (ops : List (Nat × Ev)) (to : List Char) (found : List Nat)
+    (h : route cfg (run cfg init ops).1 to = some found) (d : Nat) (hd : d ∈ found) :
+    ((run cfg init ops).1.conns d).closed = false := by
+  obtain ⟨e, he, rfl⟩ := route_found_in_tables cfg _ to found h d hd
+  exact tables_reference_open_connections cfg ops e he
 
 /-! ## 5. concrete runs: the statements are about real, non-trivial scripts -/
 
@@ -323,5 +304,37 @@ example : (run demoCfg init
      (1, .auth false plainName (.creds ['v'] ['x']) false), (1, .deliver 0)]).2 =
     [.send 1 .hdr, .send 1 (.features false false true (some true)),
      .send 1 (.failure false .notAuthorized), .send 1 .streamEnd, .closed 1] := by decide
+
+/-- a checker that would accept an account literally named "v@d/x" (password "q"), as a registration-open or
+pass-through checker does: the server refuses the name itself, the checker is not even asked -/
+def slashCfg : Cfg :=
+  { domain := ['d']
+    check := fun u p => if (u = ['v'] ∧ p = ['p']) ∨ (u = ['v', '@', 'd', '/', 'x'] ∧ p = ['q']) then .ok else .bad
+    digestOf := fun _ => .nouser }
+
+example : (run slashCfg init [(1, .openStream ['d']),
+    (1, .auth false plainName (.creds ['v', '@', 'd', '/', 'x'] ['q']) false), (1, .deliver 0), (1, .bind ['r'])]).2 =
+    [.send 1 .hdr, .send 1 (.features false false true (some true)),
+     .send 1 (.failure false .notAuthorized), .send 1 .streamEnd, .closed 1] := by decide
+
+/-- the witness of the former finding C16:stale-routing-entry: connection 1 binds "r", then "r2", then leaves;
+connection 2's message to the first jid finds nobody (an iq would be answered `service-unavailable`), the tables
+are empty -/
+example : (run demoCfg init
+    [(1, .openStream ['d']), (1, .auth false plainName (.creds ['m'] ['p']) false), (1, .deliver 0),
+     (1, .bind ['r']), (1, .bind ['r', '2']), (1, .closeStream),
+     (2, .openStream ['d']), (2, .auth false plainName (.creds ['m'] ['p']) false), (2, .deliver 0)]).1.byJid = [] := by decide
+example : (step demoCfg (run demoCfg init
+    [(1, .openStream ['d']), (1, .auth false plainName (.creds ['m'] ['p']) false), (1, .deliver 0),
+     (1, .bind ['r']), (1, .bind ['r', '2']), (1, .closeStream),
+     (2, .openStream ['d']), (2, .auth false plainName (.creds ['m'] ['p']) false), (2, .deliver 0)]).1
+    (2, .stanza { kind := .message, sender := [], to := ['m', '@', 'd', '/', 'r'] })).2 =
+    [.routed 2 { kind := .message, sender := ['m', '@', 'd'], to := ['m', '@', 'd', '/', 'r'] }] := by decide
+
+/-- two connections of one user, same resource: the second bind kicks the first (conflict), the table entry moves -/
+example : (run demoCfg init
+    [(1, .openStream ['d']), (1, .auth false plainName (.creds ['m'] ['p']) false), (1, .deliver 0), (1, .bind ['r']),
+     (2, .openStream ['d']), (2, .auth false plainName (.creds ['m'] ['p']) false), (2, .deliver 0), (2, .bind ['r'])]).1.byJid
+    = [(['m', '@', 'd', '/', 'r'], 2)] := by decide
 
 end Qx.C16
